@@ -94,6 +94,15 @@ def rolz (line : String) : String :=
       | .err e => "declined:" ++ e ++ sfx
       | .fault _ => "panic"
     | _, _, _, _ => "bad-op"
+  | ["rj", v, d, h] =>
+    -- ROLZ on forged input: class and length only (the ANS functions of this model read zeros where the real
+    -- decoder object holds bytes of its previous Read: `C03_rolz_ans_stale_witness`)
+    match v.toNat?, d.toNat?, rolzData h with
+    | some v, some d, some b =>
+      match rolzInverse CHUNK_SIZE LOG_POS_CHECKS1 true v b (Array.replicate d 0xAA) with
+      | .ok (w, _) => if w > d then "overrun" else s!"ok {w} ~"
+      | r => rolzShowInv d r
+    | _, _, _ => "bad-op"
   | ["ri", v, d, h] =>
     match v.toNat?, d.toNat?, rolzData h with
     | some v, some d, some b =>
